@@ -360,6 +360,7 @@ def build(prop, tier="quick"):
     route_facts(kb, hdr)
     visit_fact(kb, hdr)
     rethrow_fact(kb)
+    fold_route_fact(kb)
     types_fact(kb)
     # --- static fact: the lhs pointer handed to go()
     line = "auto *lhs = t_lhs.is_return_value() ? nullptr : static_cast<std::decay_t<decltype(c_lhs)> *>(t_lhs.get_ptr());"
@@ -555,6 +556,36 @@ def visit_fact(kb, hdr):
     bad = ["%s read as %s" % (k, got.get(k)) for k in VISIT_MAP if got.get(k) != VISIT_MAP[k]]
     kb.slices.append(("Boxed_Number::visit", sl.where(), sl.sha))
     kb.static_facts.append(("visit_reads_each_common_type_through_its_own_fixed_width_type", not bad, "; ".join(bad) or "11 cases"))
+
+
+def fold_route_fact(kb):
+    """supporting static fact (route agreement): wherever the optimizer or an operator node computes an
+    arithmetic value it does so by ONE unconditional call of Boxed_Number::do_oper on the operands - no
+    opcode is special-cased around the numeric dispatch.  A statement that mixes the call with a
+    conditional operator is a bypass (violation); any other unknown shape is undecided."""
+    sites = [("include/chaiscript/language/chaiscript_optimizer.hpp", "struct Constant_Fold", 2),
+             ("include/chaiscript/language/chaiscript_eval.hpp", "struct Binary_Operator_AST_Node", 1),
+             ("include/chaiscript/language/chaiscript_eval.hpp", "struct Fold_Right_Binary_Operator_AST_Node", 1),
+             ("include/chaiscript/language/chaiscript_eval.hpp", "struct Prefix_AST_Node", 1)]
+    bad, unknown, n = [], [], 0
+    for rel, st, want in sites:
+        h = chai2c.Header(rel)
+        sl = h.slice_block(st)
+        body = sl.body
+        calls = [m.start() for m in re.finditer(r"\bBoxed_Number::do_oper\(", body)]
+        if len(calls) < want:
+            unknown.append("%s: %d call(s) of Boxed_Number::do_oper, expected at least %d" % (st, len(calls), want))
+        for pos in calls:
+            a = max(body.rfind(";", 0, pos), body.rfind("{", 0, pos), body.rfind("}", 0, pos)) + 1
+            b = body.find(";", pos)
+            stmt = " ".join(body[a:b + 1].split())
+            n += 1
+            if re.fullmatch(r"(?:const auto \w+ = |auto \w+ = |return )Boxed_Number::do_oper\([\w:\->\.\[\] ,\(\)]*\);", stmt) and "?" not in stmt:
+                continue
+            (bad if "?" in stmt else unknown).append("%s: `%s`" % (st, stmt[:160]))
+        kb.slices.append((st + " (do_oper call sites)", sl.where(), sl.sha))
+    kb.static_facts.append(("every_folding_or_operator_site_computes_its_value_by_one_unconditional_Boxed_Number_do_oper_call",
+                            False if bad else (None if unknown else True), "; ".join(bad + unknown) or "%d call sites" % n))
 
 
 def rethrow_fact(kb):
